@@ -1844,6 +1844,14 @@ parse_keyword(struct archive_read *a, struct mtree *mtree,
 					return (ARCHIVE_OK);
 				}
 				break;
+			case 's':
+				if (strcmp(val, "socket") == 0) {
+					*parsed_kws |= MTREE_HAS_TYPE;
+					archive_entry_set_filetype(entry,
+						AE_IFSOCK);
+					return (ARCHIVE_OK);
+				}
+				break;
 			default:
 				break;
 			}
